@@ -136,13 +136,19 @@ def run(ck):
     GL.check_histories(ck, monitor, TIED)
     # clause "each committing with that generation and member id", on the wire: real Consumer + real KafkaClient request encoders under
     # the real ConsumerGroup; every OffsetCommit frame parsed independently of afkak's codec
-    WL.run_wire_stream(ck, 600 if ck.tier == "thorough" else 45)
+    nw = 600 if ck.tier == "thorough" else 45
+    WL.run_wire_stream(ck, nw)
+    ck.cov["rule"] += (" + wire stream: %d scripted lives of the REAL Consumer + REAL KafkaClient encoders under the group (join, consume, commit, lose the "
+                       "generation by rebalance or eviction - every third with a commit in flight -, rejoin, commit), every OffsetCommit frame parsed" % nw)
     if ck.tier == "thorough":
         ck.coqchk(["AV.Props.C16"])
     ck.assumptions += [
         "coq/Model/Group.v is a hand-written transcription of afkak/_group.py:50-538,673-901 (tie = this run's trace + observation correspondence, not a proof)",
-        "in the histories the partition Consumer is represented by its contract (stub recording the constructor arguments commit_generation_id / commit_consumer_id and the OFFSET_COMMITTED argument of start()); in addition a stream of scripted lives runs the REAL Consumer and the REAL KafkaClient request encoders under the group and checks generation and member id in every OffsetCommit frame (parsed with struct, not with afkak's codec)",
-        "the coordinator (broker side: generation counter, rejection of stale commits) is the environment: every reply and error code it can send is an event",
+        "in the histories the partition Consumer is represented by its contract (stub recording the constructor arguments commit_generation_id / commit_consumer_id and the OFFSET_COMMITTED argument of start(); the constructor may raise); in addition a stream of scripted lives (wire stream) runs the REAL Consumer and the REAL KafkaClient request encoders under the group and checks generation and member id in every OffsetCommit frame (parsed with struct, not with afkak's codec), incl. a commit in flight at eviction",
+        "the coordinator (broker side: generation counter, rejection of stale commits) is the environment: every reply and error code it can send is an event; the closed loop uses a 60-line honest coordinator",
+        "live_cids in C16_no_consumer_running_* is a function of the model state; that it equals the consumers started and not yet stopped is part of the sampled observation correspondence, not proved",
+        "C16_evicted_stopped_before_rejoin is about the function rejoin_after_error; C16_evicted_step covers the four event shapes of delivers_evicting (failed JoinGroup/SyncGroup reply to the awaiting generator, failed heartbeat of the running looper, failing partition consumer); consumers already shutting down are left to finish",
+        "within one step, runs of mutually independent calls (request / timer cancellations, consumer stop() calls, coordinator-metadata reset) are compared in canonical order on both sides",
         "Twisted inlineCallbacks / LoopingCall / DeferredList semantics as summarised at the top of Model/Group.v (exercised, not verified)",
         "two observations outside the property, by decision not findings: a second ConsumerGroup.stop() while the first waits for its consumers completes early; start() after a completed stop() is inert",
     ]
